@@ -495,6 +495,26 @@ func c05MGen(r *vfRand, adv bool) c05MIn {
 		}
 		in.Rules = append(in.Rules, rule)
 	}
+	// targeted shape (known failure shape of the route cache): an earlier rule whose host
+	// matches, which carries a filter but no path for the request, ahead of the rule that
+	// holds the (header-less) route
+	targetHost := ""
+	if r.Chance(1, 3) || adv {
+		targetHost = c05MHosts[r.Intn(2)]
+		first := c05MRule{Host: targetHost, Filter: c05MGenFilter(r, &pool)}
+		if r.Bool() {
+			first.Host = ""
+		}
+		if r.Bool() {
+			first.Paths = []c05MPath{{Path: "/nomatch", Backend: "A"}}
+		}
+		last := c05MRule{Host: targetHost, Paths: []c05MPath{{Path: "/a", Backend: r.PickStr("B", "C")}}}
+		if r.Chance(1, 4) {
+			last.Paths[0].Filter = c05MGenFilter(r, &pool)
+		}
+		in.Rules = append([]c05MRule{first}, in.Rules...)
+		in.Rules = append(in.Rules, last)
+	}
 	pool = append(pool, c05MOutside...)
 
 	// a small pool of (host, method, path) triples, most of them aimed at an entry
@@ -511,6 +531,9 @@ func c05MGen(r *vfRand, adv bool) c05MIn {
 			h += ":8080"
 		}
 		triples = append(triples, triple{h, c05MMethods[r.Intn(len(c05MMethods))], paths[r.Intn(len(paths))]})
+	}
+	if targetHost != "" {
+		triples = append(triples, triple{targetHost, "GET", "/a"}, triple{targetHost, "GET", "/a"})
 	}
 	nq := r.Range(3, 14)
 	if adv {
